@@ -64,6 +64,12 @@ def plan(tier: str, seed: int) -> list[dict]:
                 gen.config_dict(rng, opt, max_cycles=rng.choice([2, 3]), jit=rng.random() < 0.7), tag="cont")
             # the documented cycle budget and beyond (defects that only show in later cycles)
             add(opt, gen.task_desc(rng, rng.choice(["contmulti", "cont"])), gen.config_dict(rng, opt, max_cycles=rng.choice([8, 10, 12, 20]), stop="cycles", jit=rng.random() < 0.7), tag="cont")
+            if tier == "thorough" and rep < 3:
+                # beyond the documented scale: many variables, large populations, long budgets (one of each per optimizer)
+                add(opt, gen.task_desc(rng, rng.choice(["contmulti", "cont"]), dim=rng.choice([16, 24])),
+                    gen.config_dict(rng, opt, max_cycles=rng.choice([3, 5]), jit=rng.random() < 0.5), tag="big")
+                add(opt, gen.task_desc(rng, "contmulti", dim=3), gen.config_dict(rng, opt, scale=rng.choice([5, 6.4]), plus=1, max_cycles=3), tag="big")
+                add(opt, gen.task_desc(rng, "contmulti", dim=2), gen.config_dict(rng, opt, max_cycles=rng.choice([100, 120]), stop="cycles"), tag="big")
             # solver modes
             add(opt, gen.task_desc(rng, "contmulti"), gen.config_dict(rng, opt, max_cycles=3, jit=rng.random() < 0.7), mode="thread", workers=rng.choice([1, 2, 3, 8]), tag="thread")
             if rep == 0:
